@@ -132,6 +132,13 @@ check('C16',
       'Global cells changed by a call are listed in the evidence (a violation only through an observable difference). The concurrent half of C16 is covered by C13.',
       TRUST + ' Counterexamples replayed natively from a reused line buffer.', 'symbolic execution of rustc MIR with z3 over call histories; symbolic addresses', 'DESIGN.md section 5 C16')
 
+check('C13',
+      'Bounded exploration of thread schedules by symbolic execution: API calls run on virtual threads over the shared interpreted heap; at every synchronisation operation (Mutex::lock, OnceCell get/get_or_init/set, atomics, harness waits) '
+      'the scheduler\'s choice is a symbolic decision explored like a branch (2 threads and <= 2 preemptions quick; 3 threads / 3 preemptions thorough). 13 scenarios: first engine calls racing with an override of a built-in function / prefix / infix / postfix operator (followed by a probe), '
+      'two racing first calls, registration vs parse, double registration, isolated evaluations, handlers that wait for another thread. Assertions: no panic, no deadlock, and the per-call results (plus probe) equal those of some sequential order of the same calls computed with the same engine.',
+      TRUST + ' Sequential consistency; interleaving only at synchronisation operations (sound for safe Rust without unsafe). Schedule-dependent counterexamples are confirmed natively by replaying the scenario in up to 40 fresh processes.',
+      'symbolic execution of rustc MIR with a virtual-thread scheduler whose choices are solver-explored decisions (bounded preemptions)', 'DESIGN.md section 5 C13')
+
 import sys
 props = [json.loads(l) for l in open('/verif/properties.jsonl')]
 for p in props:
